@@ -316,7 +316,7 @@ LABS = ['T1|SNV-1-A-T', 'T1|SNV-9-C-G']
 def _label_index(la, lb, lc, hv_a, hv_b, hv_c, oa, ob, oc, same_seq, use_orf_ids):
     """three metadata entries distributed over one or two sequences"""
     labs = [LABS[concretize(x, 0, 1)] for x in (la, lb, lc)]
-    orfs = [(o, o + 30) for o in (concretize(oa, 0, 2), concretize(ob, 0, 2), concretize(oc, 0, 2))]
+    orfs = [(o, o + 30) for o in (concretize(oa, 0, 1), concretize(ob, 0, 1), concretize(oc, 0, 1))]
     hv = [hv_a, hv_b, hv_c]
     vpd = VariantPeptideDict('T1', check_orf=use_orf_ids)
     s1, s2 = Seq('AAAK'), Seq('CCCK')
@@ -348,7 +348,7 @@ def _label_index(la, lb, lc, hv_a, hv_b, hv_c, oa, ob, oc, same_seq, use_orf_ids
 
 
 @cond('C04', bounds='3 metadata entries over 1-2 sequences, labels from a 2-label alphabet, has_variants flags, ORF starts '
-      'in 0..2 (equal or different ORFs), with / without ORF ids', encodes=['moPepGen.svgraph.VariantPeptideDict.'
+      'in 0..1 (equal or different ORFs), with / without ORF ids', encodes=['moPepGen.svgraph.VariantPeptideDict.'
       'VariantPeptideDict.get_peptide_sequences'],
       codes={-1: 'a header entry string (including its trailing index) occurs twice',
              -2: 'the indices of one label are not 1..n'}, timeout=400)
@@ -356,7 +356,7 @@ def c04_header_index_unique(la: int, lb: int, lc: int, hv_a: bool, hv_b: bool, h
                             ob: int, oc: int, same_seq: bool, use_orf_ids: bool) -> int:
     """
     pre: 0 <= la <= 1 and 0 <= lb <= 1 and 0 <= lc <= 1
-    pre: 0 <= oa <= 2 and 0 <= ob <= 2 and 0 <= oc <= 2
+    pre: 0 <= oa <= 1 and 0 <= ob <= 1 and 0 <= oc <= 1
     post: _ >= 0
     """
     return _label_index(la, lb, lc, hv_a, hv_b, hv_c, oa, ob, oc, same_seq, use_orf_ids)
@@ -485,13 +485,29 @@ def _table(ops, a0, b0, a1, b1):
     return OK
 
 
-@cond('C04', bounds='3 table additions over 2 sequences x 2 labels with 1-2 segments (segment bounds from a small '
+@cond('C04', bounds='2 table additions over 2 sequences x 2 labels with 1-2 segments (segment bounds from a small '
       'grid), then FASTA regeneration from the table index', encodes=['moPepGen.svgraph.VariantPeptideTable.'
       'VariantPeptideTable.add_peptide / load_peptide / write_fasta', 'PeptideSegment.to_line'],
       stubs=['open / FastaIO.FastaWriter -> recorder (table handle is a real StringIO)'],
       codes={-1: 'a sequence occurs twice in the FASTA',
              -2: 'FASTA (sequence, header entry) pairs differ from the table',
              -3: "a table row's sub-sequence differs from the stated slice"}, timeout=600)
+def c04_table_fasta2(o0: int, o1: int, a0: int, b0: int, a1: int, b1: int) -> int:
+    """
+    pre: 0 <= o0 <= 3 and 0 <= o1 <= 3
+    pre: 0 <= a0 <= 2 and 2 <= b0 <= 4 and 0 <= a1 <= 1 and 1 <= b1 <= 3
+    post: _ >= 0
+    """
+    return _table([o0, o1], a0, b0, a1, b1)
+
+
+@cond('C04', bounds='3 table additions over 2 sequences x 2 labels with 1-2 segments (segment bounds from a small '
+      'grid), then FASTA regeneration from the table index', encodes=['moPepGen.svgraph.VariantPeptideTable.'
+      'VariantPeptideTable.add_peptide / load_peptide / write_fasta', 'PeptideSegment.to_line'],
+      stubs=['open / FastaIO.FastaWriter -> recorder (table handle is a real StringIO)'],
+      codes={-1: 'a sequence occurs twice in the FASTA',
+             -2: 'FASTA (sequence, header entry) pairs differ from the table',
+             -3: "a table row's sub-sequence differs from the stated slice"}, timeout=1500, tiers=('thorough',))
 def c04_table_fasta(o0: int, o1: int, o2: int, a0: int, b0: int, a1: int, b1: int) -> int:
     """
     pre: 0 <= o0 <= 3 and 0 <= o1 <= 3 and 0 <= o2 <= 3
